@@ -1053,7 +1053,7 @@ Qed.
 Lemma classify_edge x c l : scope x -> on_chroms (x_chroms x) l = true ->
   find_chrom (x_gen x) (l_chr l) = Some c -> edge x c l = true -> classify x l <> CKeep.
 Proof.
-  intros SC Hon Hf He. unfold classify. rewrite Hon, Hf. cbn [negb].
+  intros SC Hon Hf He. unfold classify. rewrite Hf.
   destruct (edge_rule x c l SC) as [_ H]. specialize (H He).
   destruct (crosses x l (Z.of_nat (length (c_seq c)))); [discriminate|].
   cbn [orb] in H. rewrite H.
@@ -1065,7 +1065,7 @@ Lemma classify_noedge x c l : scope x -> on_chroms (x_chroms x) l = true ->
   classify x l = if mfail x c l then CFree
                  else if touches x l (Z.of_nat (length (c_seq c))) then CFree else CKeep.
 Proof.
-  intros SC Hon Hf He. unfold classify. rewrite Hon, Hf. cbn [negb].
+  intros SC Hon Hf He. unfold classify. rewrite Hf.
   destruct (edge_rule x c l SC) as [H _].
   destruct (crosses x l (Z.of_nat (length (c_seq c)))); [specialize (H eq_refl); congruence|].
   pose proof (model_row x c l SC (find_chrom_in _ _ _ Hf) He) as E.
@@ -1169,7 +1169,7 @@ Proof.
     assert (Ecap : capof x 0 = option_map Z.to_nat (x_nloci x)).
     { unfold capof. destruct (x_nloci x); [|reflexivity]. cbn. rewrite Z.sub_0_r. reflexivity. }
     rewrite Ecap in M.
-    destruct rows as [|r rows]; cbn [bind]; rewrite M; reflexivity.
+    destruct rows as [|r rows]; cbn [bind]; exact M.
 Qed.
 
 (* the property, for every call *)
